@@ -514,7 +514,14 @@ func CheckC14(r *Report) {
 			if len(cur) == depth {
 				return
 			}
-			for _, b := range hist {
+			cands := hist
+			if len(cur) >= 3 && len(cands) > 29 {
+				// the fourth call of a history is drawn from the first 29 bodies only (the ones that parse, serialise
+				// and fail in every way); the one-call-only bodies added later take part in every history to depth 3.
+				// 40^4 scenarios cost 14 GB in the explorer's per-scenario statistics.
+				cands = cands[:29]
+			}
+			for _, b := range cands {
 				rec(append(append([]int(nil), cur...), b))
 			}
 		}
